@@ -151,10 +151,15 @@ func (r *fileRewriter) rewrite() {
 			}
 		case *ast.SelectorExpr:
 			if r.opts.time {
-				if name, ok := isPkgSel(v, "time", "Now", "Sleep"); ok {
+				if name, ok := isPkgSel(v, "time", "Now", "Sleep", "Since"); ok {
 					r.usesMC = true
 					r.keep["time.Now"] = true
 					r.replace(v.Pos(), v.End(), "mcrt."+name)
+				}
+			}
+			if r.opts.time {
+				if name, ok := isPkgSel(v, "time", "After", "Tick", "NewTimer", "NewTicker", "AfterFunc"); ok {
+					r.errs = append(r.errs, fmt.Sprintf("unsupported construct: time.%s at %s (real timers cannot be owned by the scheduler)", name, r.posLabel(v.Pos())))
 				}
 			}
 			if r.opts.stdio {
@@ -167,6 +172,10 @@ func (r *fileRewriter) rewrite() {
 		case *ast.RangeStmt:
 			// a range over a channel cannot be recognised without types; the
 			// scheduler's watchdog reports it as a machinery failure if it occurs.
+			if r.opts.yield {
+				r.usesMC = true
+				r.insert(v.Body.Lbrace+1, fmt.Sprintf(" mcrt.Yield(%q); ", r.posLabel(v.Pos())))
+			}
 		case *ast.GoStmt:
 			r.usesMC = true
 			r.rewriteGo(v)
